@@ -4,6 +4,8 @@
 //	c17 facts  -extra <repo>   structural facts of circuit/{garble,circuit,eval,computer}.go
 //	c17 stress -seed S -n N    N rounds of concurrent Garble/Eval/Compute/Release on one
 //	                           shared circuit; built with and without -race by checks/C17.py
+//	c17 rhist  -seed S -n N    N result histories (results.go): Compute / Eval results of wide-output
+//	                           circuits kept by the caller and re-read after later calls
 //	c17 gchist -seed S -n N    N GC histories on one shared circuit (gchist.go): garblings of
 //	                           which the caller keeps only the data, forced collections,
 //	                           further Garble calls, re-reading / evaluating the retained data
@@ -45,6 +47,8 @@ func main() {
 		os.Exit(contractMain(os.Args[2:]))
 	case "gchist":
 		os.Exit(gcMain(os.Args[2:]))
+	case "rhist":
+		os.Exit(resMain(os.Args[2:]))
 	default:
 		fmt.Fprintf(os.Stderr, "unknown mode %q\n", os.Args[1])
 		os.Exit(2)
@@ -350,13 +354,16 @@ type event struct {
 }
 
 type round struct {
-	idx     int
-	kind    string
-	c       *circuit.Circuit
-	def     []bool
-	x       []bool
-	ref     []bool
-	inputs  []*big.Int
+	idx    int
+	kind   string
+	c      *circuit.Circuit
+	def    []bool
+	x      []bool
+	ref    []bool
+	inputs []*big.Int
+	// Compute inputs of the round (index 0 = x / inputs / ref above) with their reference wire values
+	cins    [][]*big.Int
+	crefs   [][]bool
 	jobs    []*job
 	seq     atomic.Uint64
 	hctr    atomic.Int64
@@ -406,6 +413,27 @@ type worker struct {
 	// how many goroutines were inside the lazy pool creation together)
 	t0, t1 int64
 	gcs    int // collections forced by this goroutine
+	// results of Compute kept as returned (not copied) with the text of their values at return
+	keptC []keptCompute
+}
+
+type keptCompute struct {
+	outs []*big.Int
+	snap string
+	in   int
+}
+
+// rereadComputed: every kept Compute result still shows the value it had when its call returned.
+func (w *worker) rereadComputed() {
+	for _, k := range w.keptC {
+		if now := valuesText(k.outs); now != k.snap {
+			w.rd.fail("c17-compute-result-changed", map[string]any{"t": w.t, "input": k.in, "now": clipText(now),
+				"at_return": clipText(k.snap), "output_widths": hxlib.IODesc(w.rd.c.Outputs),
+				"what": "the value of a result returned by Compute (kept by the caller, not copied) changed while " +
+					"this and other goroutines made further calls on the same circuit value"})
+			return
+		}
+	}
 }
 
 func (w *worker) log(kind byte, h int64, s, p uintptr, d uint64) {
@@ -607,23 +635,31 @@ func (w *worker) release2() {
 
 func (w *worker) compute() {
 	rd := w.rd
-	outs, err := rd.c.Compute(rd.inputs)
+	in := w.rng.Intn(len(rd.cins))
+	outs, err := rd.c.Compute(rd.cins[in])
 	if err != nil {
 		rd.fail("c17-compute-error", map[string]any{"t": w.t, "err": err.Error()})
 		return
 	}
+	ref := rd.crefs[in]
 	nout := rd.c.Outputs.Size()
 	k := 0
 	for oi, io := range rd.c.Outputs {
 		for b := 0; b < int(io.Type.Bits); b++ {
-			if (outs[oi].Bit(b) == 1) != rd.ref[rd.c.NumWires-nout+k] {
-				rd.fail("c17-compute-result", map[string]any{"t": w.t, "out": k})
+			if (outs[oi].Bit(b) == 1) != ref[rd.c.NumWires-nout+k] {
+				rd.fail("c17-compute-result", map[string]any{"t": w.t, "out": k, "input": in})
 				return
 			}
 			k++
 		}
 	}
 	w.log('C', 0, 0, 0, 0)
+	// keep the returned objects; re-read the earlier ones after this later call
+	w.rereadComputed()
+	w.keptC = append(w.keptC, keptCompute{outs: outs, snap: valuesText(outs), in: in})
+	if len(w.keptC) > 4 {
+		w.keptC = w.keptC[1:]
+	}
 }
 
 // abort exercises the early-return paths of Garble (each must Put the scratch).
@@ -1125,6 +1161,20 @@ func finishRound(o *hxlib.Out, rd *round, ws []*worker, ng int) {
 func newRound(o *hxlib.Out, cf *hxlib.CommonFlags, r *hxlib.Rng, idx int, kind string, maxGates int) *round {
 	mixes := []string{"uniform", "and", "orinv", "xnor"}
 	c := hxlib.GenCircuit(r, hxlib.GenOpts{MaxGates: maxGates, MaxIn: 5, Mix: mixes[r.Intn(len(mixes))], AllowReuse: r.Intn(3) == 0})
+	if r.Intn(2) == 0 {
+		// the outputs are the last wires: re-cut them into 1..3 outputs over up to 300 wires (outputs wider
+		// than a machine word; Garble / Eval do not read the output description)
+		if avail := c.NumWires - c.Inputs.Size(); avail > 8 {
+			total := 1 + r.Intn(hxlib.MinInt(avail, 300))
+			var outs circuit.IO
+			for k := 1 + r.Intn(3); k > 1 && total > 1; k-- {
+				w := 1 + r.Intn(total-1)
+				outs = append(outs, hxlib.UintIO(fmt.Sprintf("r%d", len(outs)), w))
+				total -= w
+			}
+			c.Outputs = append(outs, hxlib.UintIO(fmt.Sprintf("r%d", len(outs)), total))
+		}
+	}
 	rd := &round{idx: idx, kind: kind, c: c, seed: cf.Seed, n: cf.N, handoff: make(chan *handle, 4)}
 	rd.def = definedWires(c)
 	nin := c.Inputs.Size()
@@ -1135,6 +1185,12 @@ func newRound(o *hxlib.Out, cf *hxlib.CommonFlags, r *hxlib.Rng, idx int, kind s
 	rd.ref = hxlib.RefEval(c, rd.x)
 	n0 := int(c.Inputs[0].Type.Bits)
 	rd.inputs = []*big.Int{bitsToBig(rd.x[:n0]), bitsToBig(rd.x[n0:])}
+	rd.cins, rd.crefs = [][]*big.Int{rd.inputs}, [][]bool{rd.ref}
+	for k := 0; k < 3; k++ {
+		x := randInput(r, nin)
+		rd.cins = append(rd.cins, []*big.Int{bitsToBig(x[:n0]), bitsToBig(x[n0:])})
+		rd.crefs = append(rd.crefs, hxlib.RefEval(c, x))
+	}
 
 	// single-goroutine reference results, on an independent Circuit value so
 	// that the shared one is untouched until the goroutines start
